@@ -68,7 +68,16 @@ impl Property for C01 {
         }
         start_all(&mut sc, 0);
         // premise check: after things settled, every node must list every other one
-        let t_ready = if star { 60_000 } else { 20_000 };
+        // the workload starts seconds, half an hour or hours after start-up (idle nodes age: token
+        // secrets rotate lazily, contacts turn questionable and get refreshed)
+        let idle = match (rng.below(20), n <= 4) {
+            (0..=13, true) | (0..=16, false) => 0,
+            (14..=18, true) | (_, false) => rng.range(31 * 60_000, 40 * 60_000),
+            _ => rng.range(3_600_000, 2 * 3_600_000),
+        };
+        let idle = if long { 0 } else { idle };
+        let t_ready = if star { 60_000 } else { 20_000 } + idle;
+        sc.params.insert("idle_ms".into(), idle as i64);
         for i in 0..n {
             sc.at(t_ready - 1, Op::Sample { node: i, table: false });
         }
@@ -212,6 +221,20 @@ impl Property for C01 {
             }
         }
         let must_find_applies = sc.net.lat_max_ms <= 700;
+        // what the statement promises: once an announcing search has ENDED, the announcer's contact
+        // is found. (The wire-level model above only knows acknowledged announces; an announce that
+        // is refused or lost is invisible to it, so it is used for expiry and fabrication only.)
+        let mut announced_by_api: Vec<(usize, [u8; 20], u64, SocketAddr)> = Vec::new();
+        for s in searches.values() {
+            if let (true, Some(te)) = (s.announce, s.t1) {
+                let a = &sc.reals[s.node];
+                let promised = match a.announce_port {
+                    Some(p) => SocketAddr::new(a.addr.ip(), p),
+                    None => a.addr,
+                };
+                announced_by_api.push((s.node, s.ih, te, promised));
+            }
+        }
         let mut judged = 0u64;
         let mut samples = Vec::new();
         for (step, s) in &searches {
@@ -230,6 +253,23 @@ impl Property for C01 {
             for c in &got {
                 if !announced_ever.contains(c) {
                     v.violate("C01", "fabricated_peer", t1, format!("search on node {} yielded {c}, which nobody announced for this info-hash", s.node));
+                }
+            }
+            for (an, ih, te, promised) in &announced_by_api {
+                if *an == s.node || *ih != s.ih {
+                    continue;
+                }
+                if s.t0 >= *te + 1_000 && t1 + MARGIN < *te + DAY {
+                    judged += 1;
+                    if must_find_applies {
+                        v.hit("must_find_after_announcing_search_ended");
+                        if !got.contains(promised) {
+                            v.violate("C01", "announced_peer_not_found", t1, format!("node {an}'s announcing search ended at {te} ms; node {} searched from {} to {t1} ms and was not given {promised} (yielded: {:?})", s.node, s.t0, got));
+                        }
+                        if sc.param("idle_ms") > 30 * 60_000 {
+                            v.hit("announce_after_idle_half_hour");
+                        }
+                    }
                 }
             }
             for (contact, (t_first, t_last)) in &s.snap {
@@ -278,12 +318,12 @@ impl Property for C01 {
         v
     }
     fn rule(&self) -> &'static str {
-        "2..9 real serving nodes (IPv4 or IPv6, random or clustered ids, announce port set or not) that all know each other (full mesh, or a star at low latency; verified through load_contacts before the workload, else the run is not judged), loss-free with per-datagram latency uniform in [0, L], L in {0,5,50,300,700,1000} ms; 1..3 announcing searches for 1..2 info-hashes, then 1..4 searches from other nodes at an offset of 1 s .. 2 h (1 run in 125 quick / 60 thorough: 12 h, 24 h -+ 1 min / 1 h, with a re-announce in between and a searcher after 36 h). Model: per (info-hash, contact) the acknowledged announce times per storing node. non-trivial = at least one (search, announced contact of another node) pair judged; distinct = distinct order digests"
+        "2..9 real serving nodes (IPv4 or IPv6, random or clustered ids, announce port set or not) that all know each other (full mesh, or a star at low latency; verified through load_contacts before the workload, else the run is not judged), loss-free with per-datagram latency uniform in [0, L], L in {0,5,50,300,700,1000} ms; the workload starts 20 s, 31..45 min or 1..3 h after start-up; 1..3 announcing searches for 1..2 info-hashes, then 1..4 searches from other nodes at an offset of 1 s .. 2 h (1 run in 125 quick / 60 thorough: 12 h, 24 h -+ 1 min / 1 h, with a re-announce in between and a searcher after 36 h). Model: per (info-hash, contact) the acknowledged announce times per storing node. non-trivial = at least one (search, announced contact of another node) pair judged; distinct = distinct order digests"
     }
     fn assumptions(&self) -> Vec<&'static str> {
         vec!["must-find is applied only for L <= 700 ms (RTT below the 1.5 s query lifetime) and searches starting >= 1 s after the announce was stored; L = 1000 ms runs are judged for fabrication and expiry only", "10 s margin around the 24 h edge (the exact edge is C07's)"]
     }
     fn required_reach(&self) -> Vec<&'static str> {
-        vec!["must_find", "must_not_find", "found_after_12h", "two_node_network", "nine_node_network", "star_topology", "explicit_announce_port", "ipv6"]
+        vec!["must_find", "must_find_after_announcing_search_ended", "announce_after_idle_half_hour", "must_not_find", "found_after_12h", "two_node_network", "nine_node_network", "star_topology", "explicit_announce_port", "ipv6"]
     }
 }
